@@ -23,6 +23,10 @@ pub struct PointRec {
     pub kind: &'static str, // "kv" | "fs"
     pub op: &'static str,
     pub path: PathBuf,
+    /// the mutation happened while an aggregate command was between
+    /// "processing starts" and "stored / given up" (pre-save listeners run
+    /// and the command file is written in that span)
+    pub in_cmd: bool,
 }
 
 pub struct ExitPayload {
@@ -39,6 +43,8 @@ pub struct H {
     pub yield_seed: AtomicU64,
     pub yield_on: AtomicBool,
     pub yield_count: AtomicU64,
+    pub in_command: AtomicBool,
+    pub cmd_depth: AtomicUsize,
 }
 
 pub struct FaultState {
@@ -88,6 +94,8 @@ pub fn install(key_file: Option<&Path>) {
         yield_seed: AtomicU64::new(0),
         yield_on: AtomicBool::new(false),
         yield_count: AtomicU64::new(0),
+        in_command: AtomicBool::new(false),
+        cmd_depth: AtomicUsize::new(0),
     });
     let _ = HANDLER.set(h.clone());
     verif::install(Some(h));
@@ -118,6 +126,8 @@ impl H {
         f.log.clear();
         f.fired = false;
         f.scope = scope;
+        self.cmd_depth.store(0, Ordering::Relaxed);
+        self.in_command.store(false, Ordering::Relaxed);
     }
 
     pub fn fault_off(&self) -> (usize, Vec<PointRec>, bool) {
@@ -139,7 +149,7 @@ impl H {
         f.counter += 1;
         let n = f.counter;
         if f.log.len() < 100_000 {
-            f.log.push(PointRec { kind, op, path: path.to_path_buf() });
+            f.log.push(PointRec { kind, op, path: path.to_path_buf(), in_cmd: self.in_command.load(Ordering::Relaxed) });
         }
         let fail = match f.mode {
             FaultMode::Off | FaultMode::Count => false,
@@ -152,6 +162,10 @@ impl H {
         } else {
             Ok(())
         }
+    }
+
+    pub fn fault_fired(&self) -> bool {
+        self.fault.lock().unwrap_or_else(|e| e.into_inner()).fired
     }
 
     pub fn take_exits(&self) -> Vec<String> {
@@ -179,6 +193,22 @@ impl verif::Handler for H {
     }
 
     fn yield_point(&self, site: &'static str) {
+        // (pre-save listeners read other aggregates - the signer mapping, for
+        // one - so a nested "cache-get" does not end the span)
+        // and may send commands to them - a new key is registered with the
+        // signer mapping - so the span is counted in and out)
+        match site {
+            "agg-before-process" => {
+                self.cmd_depth.fetch_add(1, Ordering::Relaxed);
+                self.in_command.store(true, Ordering::Relaxed);
+            }
+            "agg-before-cache-update" => {
+                let d = self.cmd_depth.load(Ordering::Relaxed).saturating_sub(1);
+                self.cmd_depth.store(d, Ordering::Relaxed);
+                self.in_command.store(d > 0, Ordering::Relaxed);
+            }
+            _ => {}
+        }
         if !self.yield_on.load(Ordering::Relaxed) {
             return;
         }
